@@ -393,8 +393,8 @@ fn check_enum(i: u64, st: &mut Stats) -> Result<(), String> {
     Ok(())
 }
 
-fn desc_enum(i: u64) -> Value {
-    let sc = &enum_table(Tier::Quick)[(i as usize).min(enum_table(Tier::Quick).len() - 1)];
+fn desc_enum(t: Tier, i: u64) -> Value {
+    let sc = &enum_table(t)[(i as usize).min(enum_table(t).len() - 1)];
     json!({"slots": sc.k, "fragments": sc.trains.iter().map(|t| t.cuts.len() + 1).collect::<Vec<_>>(), "merge": sc.merge, "strays": format!("{:?}", sc.strays)})
 }
 
@@ -464,7 +464,7 @@ pub fn property() -> Property {
                 name: "random-interleavings",
                 rule: "see property rule",
                 cases: (600_000, 3_000_000),
-                fuzz_decode: None,
+                fuzz_decode: Some(crate::fuzzdec::c07_case),
                 strategy: gen_strategy,
                 check: check_scenario,
                 required_classes: &["interleaved", "stray-aliases-open-slot", "first-fragment-preempts-open-train"],
